@@ -19,7 +19,8 @@ TRUSTED = [
 ]
 
 
-def engine_check(ctx, prop_file, families, what, relevant=None, stream_b=None, runner_name=None, extra_cov=None):
+def engine_check(ctx, prop_file, families, what, relevant=None, stream_b=None, runner_name=None, extra_cov=None,
+                 entry_predicates=False, algo=False):
     """families: list of (family function name, n_quick, n_thorough)."""
     if ctx.replay:
         return replay_case(ctx, runner_name, what)
@@ -30,7 +31,10 @@ def engine_check(ctx, prop_file, families, what, relevant=None, stream_b=None, r
     streams = {}
     samples = []
     if g is not None:
-        for fam, nq, nt in families:
+        default_runner = runner_name
+        for entry in families:
+            fam, nq, nt = entry[:3]
+            runner_name = entry[3] if len(entry) > 3 else default_runner      # a family may bring its own runner
             n = nq if ctx.quick else nt
             t0 = time.time()
             st, fails = X.explore(ctx, fam, n, runner=runner_name)
@@ -63,6 +67,29 @@ def engine_check(ctx, prop_file, families, what, relevant=None, stream_b=None, r
                    "distinct (flavour, base, schedule)")
     cov["streams"] = streams
     cov["samples"] = samples[:4]
+    if algo and g is not None:
+        # algorithm layer (DESIGN 3.3): PropAlgo.v is re-checked by the kernel and the stepwise tie of AlgoModel (the
+        # engine's own closed loop on fragment F1..F3) against the real engine runs as one more stream
+        from .. import build
+        from . import c01_algo
+        ga = build.prop_gate("PropAlgo")
+        cov["algo_theorems"] = ga["theorems"]
+        ok_a = [t for t in ga["theorems"] if ga["assumptions"].get(t) == []]
+        if not ga["ok"] or len(ok_a) != len(ga["theorems"]):
+            ctx.violation("algorithm-layer theorems no longer check: " + (ga.get("error") or "assumptions")[:300],
+                          dict(kind="proof", file="PropAlgo.v", error=ga.get("error")), no_input=True, theorem="PropAlgo.v")
+        else:
+            cov["obligations"] = cov.get("obligations", 0) + len(ga["theorems"])
+            cov["discharged"] = cov.get("discharged", 0) + len(ok_a)
+            cov["theorems"] = list(cov.get("theorems", [])) + ga["theorems"]
+        c01_algo.algo_stream(ctx, streams, plan=c01_algo.PLAN_LIGHT)
+        cov["streams"] = streams
+    if entry_predicates and g is not None:
+        # second tie for the decision predicates the engine's algorithm rests on (needs_sync, is_creation, hash_conflict,
+        # ...): regenerated from the current source, proved equal to the hand model, laws re-checked, truth table vs the
+        # real SideState / SyncEntry (harness/entrypred.py, PropEntryPred.v)
+        from .. import entrypred
+        entrypred.entrypred_gate(ctx)
     if extra_cov:
         cov.update(extra_cov)
     tb = list(TRUSTED) + ["axioms per theorem as printed by Print Assumptions: " +
